@@ -48,10 +48,25 @@ func runC02(c *Ctx) {
 	} else {
 		pk := P.Pkg("core/schedule")
 		okType := false
+		idxName := "i" // the token index: the field named i, or else the only field of an atomic integer type
 		if tn, ok := pk.Types.Scope().Lookup("doAtSchedule").(*types.TypeName); ok {
 			st := tn.Type().Underlying().(*types.Struct)
+			hasI := false
+			var atomics []string
 			for i := 0; i < st.NumFields(); i++ {
+				p, n := NamedOf(st.Field(i).Type())
+				if (p == "go.uber.org/atomic" || p == "sync/atomic") && (n == "Int64" || n == "Uint64") {
+					atomics = append(atomics, st.Field(i).Name())
+				}
 				if st.Field(i).Name() == "i" {
+					hasI = true
+				}
+			}
+			if !hasI && len(atomics) == 1 {
+				idxName = atomics[0]
+			}
+			for i := 0; i < st.NumFields(); i++ {
+				if st.Field(i).Name() == idxName {
 					p, n := NamedOf(st.Field(i).Type())
 					okType = (p == "go.uber.org/atomic" || p == "sync/atomic") && (n == "Int64" || n == "Uint64")
 				}
@@ -68,7 +83,7 @@ func runC02(c *Ctx) {
 					fv, _ = FieldOf(fa)
 				}
 			}
-			return fv != nil && fv.Name() == "i" && RecvTypeName(CalleeObj(cc)) != "" && isDoAtField(cc.Args[0])
+			return fv != nil && fv.Name() == idxName && RecvTypeName(CalleeObj(cc)) != "" && isDoAtField(cc.Args[0])
 		}
 		rmw := map[string]bool{"Inc": true, "Add": true}
 		forbidden := map[string]bool{"Store": true, "Swap": true, "CAS": true, "CompareAndSwap": true, "Dec": true, "Sub": true}
@@ -130,6 +145,31 @@ func runC02(c *Ctx) {
 					c.Check(len(cc.Args) == 1 && idxOK(cc.Args[0]), "O2.1", fk(daNext)+":doAt-of-the-drawn-index", in.Pos(), "doAt must be evaluated at (fetch-and-increment result - 1)")
 				}
 			})
+			// doAt evaluated in a helper of Next (operationTime(i)): its argument is the helper's parameter, which
+			// receives the drawn index at the helper's only call site
+			for _, g := range FindFuncs(daNext, 2, func(*ssa.Function) bool { return true }) {
+				if g == daNext {
+					continue
+				}
+				EachInstr(g, func(in ssa.Instruction) {
+					cc := CC(in)
+					if cc == nil || !IsFieldCall(cc, "doAtSchedule", "doAt") {
+						return
+					}
+					nUse++
+					ok := false
+					if pr, isP := cc.Args[0].(*ssa.Parameter); isP && len(cc.Args) == 1 {
+						if site := SoleCallSite(g); site != nil && site.Parent() == daNext {
+							for i, q := range g.Params {
+								if q == pr && i < len(CC(site).Args) {
+									ok = idxOK(CC(site).Args[i])
+								}
+							}
+						}
+					}
+					c.Check(ok, "O2.1", fk(g)+":doAt-of-the-drawn-index", in.Pos(), "doAt must be evaluated at (fetch-and-increment result - 1)")
+				})
+			}
 			c.Floor("O2.1", "uses of the drawn index in doAtSchedule.Next", nUse, 2)
 		}
 		nOps := 0
@@ -1130,17 +1170,38 @@ func c02ReadAfterStart(c *Ctx, id string, pkgFns []*ssa.Function) {
 				return
 			}
 			n++
-			okAfter := false
-			for _, d := range dos {
-				if InstrDominates(d, in) {
-					okAfter = true
+			// after the start at this instruction: after a startOnce.Do of its function, under IsStarted(), or - for an
+			// unexported helper of the type (finishTime()) - at every one of its call sites
+			var afterStart func(at ssa.Instruction, depth int) bool
+			afterStart = func(at ssa.Instruction, depth int) bool {
+				f := at.Parent()
+				ok := false
+				EachInstr(f, func(d ssa.Instruction) {
+					if cl, isC := d.(*ssa.Call); isC && MatchCC(&cl.Call, sOnceDo) && InstrDominates(d, at) {
+						ok = true
+					}
+				})
+				for _, bf := range BoolFactsAt(at) {
+					if cl, _ := CallOfValue(bf.Subj); cl != nil && bf.Val && CalleeObj(&cl.Call) != nil && CalleeObj(&cl.Call).Name() == "IsStarted" {
+						ok = true
+					}
 				}
-			}
-			for _, bf := range BoolFactsAt(in) {
-				if cl, _ := CallOfValue(bf.Subj); cl != nil && bf.Val && CalleeObj(&cl.Call) != nil && CalleeObj(&cl.Call).Name() == "IsStarted" {
-					okAfter = true
+				if ok || depth > 2 {
+					return ok
 				}
+				sites := PkgCallers(f)
+				if len(sites) == 0 {
+					return false
+				}
+				for _, s := range sites {
+					if !afterStart(s, depth+1) {
+						return false
+					}
+				}
+				return true
 			}
+			okAfter := afterStart(in, 0)
+			_ = dos
 			c.Check(okAfter, id, fk(g)+":"+startFields[fv]+"."+fv.Name()+"-read-after-start", in.Pos(),
 				"the "+fv.Name()+" of the schedule is used at "+P.Pos(in.Pos())+" before the schedule is known to be started (neither after this method's startOnce.Do nor under IsStarted())")
 		})
